@@ -295,7 +295,17 @@ def concurrent_first_use(rec, rng, n):
     except ValueError:
         return
     mon.register_callback(TOOL, mon.events.LINE, lambda code, line: time.sleep(0.0005))
-    mon.set_local_events(TOOL, MP.Map.update.__code__, mon.events.LINE)
+    from werkzeug.routing import matcher as _MM
+
+    codes = [MP.Map.update.__code__]
+    try:
+        codes.append(_MM.StateMachineMatcher.update.__code__)
+    except AttributeError:
+        pass
+    for c_ in list(codes):
+        codes += [k for k in c_.co_consts if hasattr(k, "co_code")]  # nested helpers are code objects of their own
+    for c_ in codes:
+        mon.set_local_events(TOOL, c_, mon.events.LINE)
     try:
         for _ in range(n):
             rules = [Rule("/index.html", endpoint="index", alias=True), Rule("/", endpoint="index"), Rule("/old/<int:p>", endpoint="page", alias=True),
@@ -335,7 +345,8 @@ def concurrent_first_use(rec, rng, n):
                     if got != exp[p]:
                         rec.violation("C12/concurrent-first-use-alias-redirect", f"thread {i}: match({p!r}) -> {got!r}, expected redirect to {exp[p]!r}", {"path": p, "rules": [r.rule for r in rules]}, monitor="schedule-stress")
     finally:
-        mon.set_local_events(TOOL, MP.Map.update.__code__, 0)
+        for c_ in codes:
+            mon.set_local_events(TOOL, c_, 0)
         mon.free_tool_id(TOOL)
 
 
